@@ -28,6 +28,7 @@ fn main() {
     }
     match suite {
         "codec" => codec::run(seed, tier, out),
+        "codec-worker" => codec::worker(seed, tier, args[4].parse().unwrap_or(0)),
         "chain" => chain::run(seed, tier, out),
         "merkle" => merkle::run(seed, tier, out),
         "hs" => hs::run(seed, tier, out),
